@@ -19,7 +19,16 @@ import tempfile
 import common
 from common import LeanDriver, run_check
 
-GROUPS = ["photon_collection", "charge_generation", "charge_collection", "charge_measurement", "readout_electronics"]
+# the ten model groups, in execution order (every one runs on every detector type)
+GROUPS = ["scene_generation", "photon_collection", "phasing", "charge_generation", "charge_collection", "charge_transfer",
+          "charge_measurement", "signal_transfer", "readout_electronics", "data_processing"]
+DETECTORS = ["CCD", "CMOS", "MKID", "APD"]
+
+
+def short(g):
+    """unique two-letter tag of a group name (scene_generation -> sg, phasing -> ph)"""
+    parts = g.split("_")
+    return parts[0][0] + parts[1][0] if len(parts) > 1 else g[:2]
 FUNC = "probes.fault"
 EXCS = ["ValueError", "ZeroDivisionError", "KeyError", "TypeError", "RuntimeError", "Exception", "OSError", "IndexError",
         "NotImplementedError", "AssertionError", "OddError", "QuietError", "LookupError", "FloatingPointError",
@@ -30,14 +39,14 @@ FIT_HEAD = "Exception raised with ModelFitting:"
 
 
 # ------------------------------------------------------------------ generator
-def gen_pipeline(rng, small=False):
+def gen_pipeline(rng, small=False, only=None):
     k = rng.choice([1, 2, 2, 3]) if not small else rng.choice([1, 2])
-    groups = sorted(rng.sample(GROUPS, k), key=GROUPS.index)
+    groups = sorted(rng.sample(GROUPS, k), key=GROUPS.index) if only is None else list(only)
     out = []
     uid = "%06d" % rng.randrange(10**6)  # ids unique per pipeline: late calls of an earlier parallel case are not mistaken for ours
     for g in groups:
         n = rng.choice([1, 1, 2]) if small else rng.choice([1, 2, 3])
-        out.append([g, [{"name": f"m{i}_{g[:2]}", "enabled": (rng.random() < 0.85), "id": f"{uid}/{g}#{i}"} for i in range(n)]])
+        out.append([g, [{"name": f"m{i}_{short(g)}", "enabled": (rng.random() < 0.85), "id": f"{uid}/{g}#{i}"} for i in range(n)]])
     if not any(m["enabled"] for _, ms in out for m in ms):
         out[0][1][0]["enabled"] = True
     return out
@@ -69,7 +78,8 @@ def gen_case(rng, mode, groups=None, fault_pos=None, steps=None, nruns=None, no_
     sched = schedule(groups)
     # seeded regions on the way out: a declared pipeline seed (0 is a seed too) wraps every run in `with set_random_seed(seed)`
     case = {"mode": mode, "groups": groups, "steps": steps, "fault": None,
-            "pipeline_seed": rng.choice([None, None, 0, 7, 12345])}
+            "pipeline_seed": rng.choice([None, None, 0, 7, 12345]),
+            "detector": rng.choice(["CCD", "CCD", "CMOS", "MKID", "APD"])}
     if mode in ("sequential", "parallel"):
         nruns = nruns or rng.choice([2, 3])
         two = (rng.random() < 0.35) if two is None else two
@@ -219,7 +229,7 @@ def run_impl(case):
     new_run_token()
     mode = case["mode"]
     times = [float(i + 1) for i in range(case["steps"])]
-    det = pyx.make_detector("CCD", 3, 4)
+    det = pyx.make_detector(case.get("detector", "CCD"), 3, 4)
     out = {}
     if case.get("entry") == "yaml":
         return run_yaml(case, times)
@@ -304,6 +314,7 @@ def run_impl(case):
         tmp = tempfile.mkdtemp(prefix="c09-")
         try:
             np.save(tmp + "/t.npy", np.full((3, 4), 3.0))
+            targets, wkw = _cal_files(case, tmp)
             # a data-writing probe in front, so that the calibration has something to fit
             from pyxel.pipelines import ModelFunction
 
@@ -311,7 +322,7 @@ def run_impl(case):
             pipe = _with_writer(case, writer)
             probes.reset()
             cal = Calibration(
-                target_data_path=[tmp + "/t.npy"],
+                target_data_path=targets, **wkw,
                 fitness_function=FitnessFunction("pyxel.calibration.fitness.sum_of_abs_residuals"),
                 algorithm=Algorithm(**case["algo"]),
                 parameters=[ParameterValues(key="pipeline.scene_generation.writer.arguments.a", values="_", boundaries=(0, 5)),
@@ -331,6 +342,23 @@ def run_impl(case):
     raise ValueError(mode)
 
 
+def _cal_files(case, tmp):
+    """target files and the weights declaration of a calibration case: none / one weight per target (two targets,
+    so that the weights really are an array of several values) / weight files"""
+    import numpy as np
+
+    kind = case.get("cal_weights")
+    if not kind:
+        return [tmp + "/t.npy"], {}
+    np.save(tmp + "/t1.npy", np.full((3, 4), 5.0))
+    targets = [tmp + "/t.npy", tmp + "/t1.npy"]
+    if kind == "list":
+        return targets, {"weights": [1.0, 2.0]}
+    for k in (0, 1):
+        np.save(f"{tmp}/w{k}.npy", np.full((3, 4), 1.0 + k))
+    return targets, {"weights_from_file": [tmp + "/w0.npy", tmp + "/w1.npy"]}
+
+
 def yaml_document(case, times, tmp):
     """the configuration file of the case: same pipeline, same plan, started through `pyxel.run(<file>)`"""
     mode = case["mode"]
@@ -339,14 +367,14 @@ def yaml_document(case, times, tmp):
     if mode == "calibration":
         pdoc["scene_generation"] = [{"name": "writer", "func": "probes.cal_probe", "enabled": True, "arguments": {"a": 1.0, "b": 0.0}}]
     for g, _ in case["groups"]:
-        pdoc[g] = [{"name": m.name, "func": FUNC, "enabled": bool(m.enabled), "arguments": dict(m.arguments)} for m in getattr(pipe, g).models]
+        pdoc[g] = pdoc.get(g, []) + [{"name": m.name, "func": FUNC, "enabled": bool(m.enabled), "arguments": dict(m.arguments)} for m in getattr(pipe, g).models]
     outputs = None
     if case.get("outputs"):
         outputs = {"output_folder": tmp + "/out"}
         if mode != "calibration":
             # something to save: an image writer at the end of the pipeline (not part of the judged schedule)
             outputs["save_data_to_file"] = [{"detector.image.array": ["npy"]}]
-            pdoc["data_processing"] = [{"name": "wimg", "func": "probes.write_image", "enabled": True, "arguments": {}}]
+            pdoc["data_processing"] = pdoc.get("data_processing", []) + [{"name": "wimg", "func": "probes.write_image", "enabled": True, "arguments": {}}]
     if mode == "exposure":
         section = {"exposure": {"readout": {"times": times}}}
         if case.get("pipeline_seed") is not None:
@@ -359,7 +387,8 @@ def yaml_document(case, times, tmp):
     else:
         section = {"calibration": {
             "result_type": "pixel", "result_fit_range": [0, 3, 0, 4], "target_fit_range": [0, 3, 0, 4],
-            "target_data_path": [tmp + "/t.npy"], "fitness_function": {"func": "pyxel.calibration.fitness.sum_of_abs_residuals"},
+            "target_data_path": _cal_files(case, tmp)[0], **_cal_files(case, tmp)[1],
+            "fitness_function": {"func": "pyxel.calibration.fitness.sum_of_abs_residuals"},
             "algorithm": dict(case["algo"]), "pygmo_seed": case["pygmo_seed"], "num_islands": case["islands"], "num_evolutions": 2,
             "parameters": [{"key": "pipeline.scene_generation.writer.arguments.a", "values": "_", "boundaries": [0, 5]},
                            {"key": "pipeline.scene_generation.writer.arguments.b", "values": "_", "boundaries": [0, 5]}]}}
@@ -367,8 +396,9 @@ def yaml_document(case, times, tmp):
         section["calibration"]["pipeline_seed"] = case["pipeline_seed"]
     if outputs:
         next(iter(section.values()))["outputs"] = outputs
+    kind = case.get("detector", "CCD") if case.get("detector") in ("CCD", "CMOS", "MKID") else "CCD"
     return {**section,
-            "ccd_detector": {
+            kind.lower() + "_detector": {
                 "geometry": {"row": 3, "col": 4, "total_thickness": 10.0, "pixel_vert_size": 10.0, "pixel_horz_size": 10.0},
                 "environment": {"temperature": 100.0},
                 "characteristics": {"quantum_efficiency": 0.5, "charge_to_volt_conversion": 1e-6, "pre_amplification": 10.0,
@@ -416,7 +446,7 @@ def _with_writer(case, writer):
     kw = {"scene_generation": [writer]}
     for g, _ in case["groups"]:
         grp = getattr(base, g)
-        kw[g] = [ModelFunction(func=FUNC, name=m.name, arguments=dict(m.arguments), enabled=m.enabled) for m in grp.models]
+        kw[g] = kw.get(g, []) + [ModelFunction(func=FUNC, name=m.name, arguments=dict(m.arguments), enabled=m.enabled) for m in grp.models]
     return DetectionPipeline(**kw)
 
 
@@ -641,6 +671,18 @@ def body(ck: common.Check):
             if c["fault"]:
                 c["fault"]["exc"] = name
             cases.append(("classes", c))
+    # a failing model in EVERY one of the ten groups, on every detector type: the group named to the caller must be
+    # the group the model was configured in
+    for gi, g in enumerate(GROUPS):
+        for di, kind in enumerate(DETECTORS):
+            if quick and (gi + di) % 2:
+                continue
+            groups = gen_pipeline(rng, small=True, only=[g])
+            for m in groups[0][1]:
+                m["enabled"] = True
+            c = gen_case(rng, ["exposure", "sequential"][(gi + di // 2) % 2], groups=groups, fault_pos=(0, 0, 0), steps=1, nruns=2, two=False)
+            c["detector"] = kind
+            cases.append(("groups", c))
     # the file entry point `pyxel.run(<yaml>)` (what the command line calls), with and without an `outputs:` section
     for i in range(16 if quick else 120):
         c = gen_case(rng, ["exposure", "sequential"][i % 2], no_fault=(i % 8 == 7))
@@ -668,6 +710,9 @@ def body(ck: common.Check):
         impl = run_impl(case)
         ck.case(case, nontrivial=case["fault"] is not None, stream=stream)
         ck.count("mode=" + case["mode"])
+        ck.count("detector=" + case.get("detector", "CCD"))
+        if case["fault"]:
+            ck.count("fault_in_group=" + schedule(case["groups"])[case["fault"]["pos"]][0])
         if case.get("obs_mode"):
             ck.count("parameter_mode=" + case["obs_mode"] + ("/dask" if case["mode"] == "parallel" else ""))
         ck.count("pipeline_seed=" + ("none" if case.get("pipeline_seed") is None else "set"))
@@ -725,7 +770,10 @@ def body(ck: common.Check):
             nth = None
         c = gen_case(rng, "calibration", groups=groups, steps=1, no_fault=nth is None,
                      fault_pos=None if nth is None else (0, 0, rng.randrange(len(schedule(groups)))))
-        c.update({"algo": algo, "islands": islands, "pygmo_seed": rng.randrange(1, 100000)})
+        c.update({"algo": algo, "islands": islands, "pygmo_seed": rng.randrange(1, 100000),
+                  # declared weights when the fault strikes: none / one per target (>= 2 values) / weight files
+                  "cal_weights": [None, "list", "file"][i % 3]})
+        ck.count("calibration_weights=" + str(c["cal_weights"]))
         if c["fault"]:
             c["fault"]["nth"] = nth
         if i % 3 == 2 or i == ncal - 1:
@@ -738,7 +786,8 @@ def body(ck: common.Check):
         pv = property_predicate(c, impl)
         if pv:
             ck.violation(pv[0], pv[1], {"case": c, "impl": impl})
-    ck.rule = ("pipelines of 1-3 groups x 1-3 models (some disabled), 1-3 readout steps; exposure, sequential observation over 2-3 values in product / sequential / custom (table file) parameter mode "
+    ck.rule = ("pipelines of 1-3 of the ten groups x 1-3 models (some disabled) on CCD / CMOS / MKID / APD detectors, + a fault in EVERY group on every detector type; calibrations with no weights / per-target weights (2 values) / weight files; "
+               "pipelines of 1-3 groups x 1-3 models (some disabled), 1-3 readout steps; exposure, sequential observation over 2-3 values in product / sequential / custom (table file) parameter mode "
                "(x 2 values of a second parameter), the same through the file entry point pyxel.run(<yaml>) with and without an outputs section (exposure, sequential observation, calibration), parallel observation (threads; every class at a run inside the dask graph and at the eager first run, with and without float/integer buckets written), calibration (sade / sga / nlopt; fault at an evaluation of the "
                f"initial population or of an evolution); {len(EXCS)} exception classes (incl. StopIteration, warnings, MemoryError), odd constructors / custom __str__, messages with newlines, "
                "unicode, empty; with and without a declared pipeline seed (incl. 0) and with the failing model raising inside its own seeded region; a fault at EVERY (run, step, position) of small pipelines + random positions + fault-free runs; "
